@@ -80,6 +80,9 @@ func init() {
 		},
 		"vConfig": func(x *Exec, fn *ssa.Function, a []Value) Value {
 			x.cfg[a[0].(string)] = a[1].(string)
+			if a[0].(string) == "algebraic-samplers" {
+				x.feS()
+			}
 			return nil
 		},
 		"vStub": func(x *Exec, fn *ssa.Function, a []Value) Value {
